@@ -86,9 +86,23 @@ def make_plan(seed: int, tier: str, index: int) -> dict[str, Any]:
     n_ok = g.randint(2, 6)
     corpus: list[dict[str, Any]] = []
     docs = []
+    big_run = index % 20 == 13 and sub in ("none", "cache_clear", "io", "long")
     for i in range(n_ok):
         d = gen.gen_doc(g, resolutions=resolutions, thresholds_for=resolutions, max_tracks=3,
                         small=True)
+        if big_run and i == 0 and d["tracks"]:
+            # one chart of a few thousand lines (sizes, counts and depths that the small texts
+            # never reach); such runs have one client
+            tr = d["tracks"][0]
+            t_last = max([gr["tick"] for gr in tr[1]] + [0])
+            for _n in range(g.choice([700, 1500, 2600])):
+                t_last += g.choice([1, d["resolution"] // 4 + 1, d["resolution"]])
+                lanes = sorted(g.sample(range(5), g.choice([1, 1, 2, 3])))
+                tr[1].append({"tick": t_last, "lanes": lanes, "sus": g.choice([0, 0, 0, d["resolution"]]),
+                              "tap": False, "forced": g.random() < 0.1})
+            for _n in range(g.choice([0, 150, 400])):
+                d["events"].append([(d["events"][-1][0] if d["events"] else 0) + g.choice([0, 1, 50]),
+                                    g.choice(["lyric", "section", "text"]), g.choice(["la", "verse 2", "x y"])])
         docs.append(d)
         nl = g.choice(["\n", "\n", "\r\n"])
         if g.random() < (0.7 if sub == "callerfault" else 0.25):
@@ -156,6 +170,8 @@ def make_plan(seed: int, tier: str, index: int) -> dict[str, Any]:
             ])
         access.append(a)
     n_clients = p.choice([1, 2, 2, 3, 3, 4])
+    if big_run:
+        n_clients = 1
     if sub == "long":
         # long histories without retained results: object ids get reused, memo tables fill up
         n_clients = p.choice([1, 1, 2])
